@@ -10,7 +10,7 @@ EXTENDS PyFloatOps, Json
 Lines == ndJsonDeserialize("trace.ndjson")
 VARIABLES l, v
 Fld(R, f, d) == IF f \in DOMAIN R THEN R[f] ELSE d
-Operand(r) == IF r.t = "f" THEN [t |-> "f", f |-> DecodeF(r.b)]
+Operand(r) == IF r.t = "gone" THEN [t |-> "gone"] ELSE IF r.t = "f" THEN [t |-> "f", f |-> DecodeF(r.b)]
               ELSE IF r.t = "c" THEN [t |-> "c", re |-> DecodeF(r.re), im |-> DecodeF(r.im)]
               ELSE [t |-> "i", z |-> r.z]
 NoOperand == [t |-> "i", z |-> ZZero]
@@ -18,16 +18,21 @@ FullObs(o) == [k |-> o.k, f |-> IF "b" \in DOMAIN o THEN DecodeF(o.b) ELSE NaN, 
                v |-> Fld(o, "v", ZZero), t |-> Fld(o, "t", 0), txt |-> Fld(o, "txt", <<>>), bases |-> Fld(o, "bases", <<>>)]
 NoObs == [k |-> "none", f |-> NaN, f2 |-> NaN, v |-> ZZero, t |-> 0, txt |-> <<>>, bases |-> <<>>]
 Full(R) == [op |-> R.op, x |-> IF "x" \in DOMAIN R THEN Operand(R.x) ELSE NoOperand, y |-> IF "y" \in DOMAIN R THEN Operand(R.y) ELSE NoOperand,
-            txt |-> Fld(R, "txt", <<>>), o |-> FullObs(R.o), o2 |-> IF "o2" \in DOMAIN R THEN FullObs(R.o2) ELSE NoObs]
+            txt |-> Fld(R, "txt", <<>>), o |-> FullObs(R.o), o2 |-> IF "o2" \in DOMAIN R THEN FullObs(R.o2) ELSE NoObs,
+            \* the operand objects re-read after the operation (Go API route); absent = not observed = unchanged
+            xa |-> IF "xa" \in DOMAIN R THEN Operand(R.xa) ELSE IF "x" \in DOMAIN R THEN Operand(R.x) ELSE NoOperand,
+            ya |-> IF "ya" \in DOMAIN R THEN Operand(R.ya) ELSE IF "y" \in DOMAIN R THEN Operand(R.y) ELSE NoOperand]
 \* the expected outcome in transportable form (doubles as sign / mantissa digits / exponent)
 ShowF(f) == [k |-> f.k, s |-> f.s, m |-> f.m, e |-> f.e]
 Verdict(n) ==
   LET C == Full(Lines[n]) e == Expected(C) IN
   IF e.k = "ood" THEN (IF PrintT(ToJson([l |-> n, key |-> "OOD"])) THEN "bad" ELSE "bad")
-  ELSE IF Accept(C, e) THEN "ok"
-  ELSE IF PrintT(ToJson([l |-> n, key |-> FindingKey(C, e),
-                         exp |-> [k |-> e.k, f |-> ShowF(e.f), f2 |-> ShowF(e.f2), v |-> e.v, t |-> e.t, ename |-> e.ename]]))
-       THEN "bad" ELSE "bad"
+  ELSE LET resultOk == Accept(C, e)
+           operandsOk == OperandsPreserved(C)
+           r1 == resultOk \/ PrintT(ToJson([l |-> n, key |-> FindingKey(C, e),
+                                            exp |-> [k |-> e.k, f |-> ShowF(e.f), f2 |-> ShowF(e.f2), v |-> e.v, t |-> e.t, ename |-> e.ename]]))
+           r2 == operandsOk \/ PrintT(ToJson([l |-> n, key |-> MutationKey(C)]))      \* a second record, independent of the result
+       IN IF r1 /\ r2 /\ resultOk /\ operandsOk THEN "ok" ELSE "bad"
 Init == l \in 1..Len(Lines) /\ v = "todo"
 Next == v = "todo" /\ v' = Verdict(l) /\ UNCHANGED l
 Spec == Init /\ [][Next]_<<l, v>>
